@@ -14,18 +14,19 @@ def run(ctx):
     ctx.tlc_mc(fam, "TTL", "TTL_MC_bug_zero.cfg", workers=1, expect_violation="Conforms")
     ctx.tlc_mc(fam, "TTL", "TTL_MC_bug_unit.cfg", workers=1, expect_violation="Agree")
     if ctx.thorough:
+        ctx.tlc_mc(fam, "TTL", "TTL_MC_never.cfg", workers=16)
         ctx.tlc_mc(fam, "TTL", "TTL_MC_big.cfg", workers=16, timeout=3000, heap="16g")
         ctx.tlc_mc(fam, "TTL", "TTL_MC_3k.cfg", workers=16, timeout=3000, heap="16g")
     # 2. plans out of the spec: whole space for the in-memory cache, comparison region for both
-    pdir, plans = ctx.tlc_plans(fam, "TTL_Gen", "TTL_Gen.cfg", num=ctx.q(150, 2500), depth=26)
-    rdir, rplans = ctx.tlc_plans(fam, "TTL_Gen", "TTL_GenR.cfg", num=ctx.q(100, 1500), depth=26,
+    pdir, plans = ctx.tlc_plans(fam, "TTL_Gen", "TTL_Gen.cfg", num=ctx.q(110, 1500), depth=26)
+    rdir, rplans = ctx.tlc_plans(fam, "TTL_Gen", "TTL_GenR.cfg", num=ctx.q(80, 1000), depth=26,
                                  sub="plansr", seed_off=1)
     # 3. execute on the real code
     binary = ctx.go_build("c05")
     files = [ctx.path("mem.ndjson"), ctx.path("both.ndjson"), ctx.path("conc.ndjson")]
     ctx.harness(binary, ["-plans", pdir, "-plansr", rdir, "-out", files[0], "-both", files[1],
-                         "-conc", files[2], "-seed", ctx.seed, "-hist", ctx.q(250, 5000),
-                         "-nboth", ctx.q(150, 3000), "-nconc", ctx.q(80, 1500),
+                         "-conc", files[2], "-seed", ctx.seed, "-hist", ctx.q(250, 4000),
+                         "-nboth", ctx.q(150, 2500), "-nconc", ctx.q(80, 1000),
                          "-maxops", ctx.q(60, 120)], traces=files)
     # 4. validate what the real code did
     mem = ctx.load_traces(files[0])
